@@ -348,6 +348,34 @@ def c18d(tree, ob):
             ob.violate(SESS, fm.qual, 'len(self.{}) == 0'.format(buf), 'the idle indication ignores octets waiting in ' + buf, rm)
     if isinstance(norm.strip(rm.value), ast.BoolOp) and isinstance(norm.strip(rm.value).op, ast.Or):
         ob.violate(SESS, fm.qual, src(rm), 'buffer idle test is a disjunction', rm)
+    # the connection layer below keeps its own octet buffer(s): what the message layer handed down but the socket has
+    # not accepted yet is still pending (close() discards it)
+    conn = tree.klass(SESS, 'Connection')
+    init = next((m for m in conn.body if isinstance(m, ast.FunctionDef) and m.name == '__init__'), None)
+    ob.require(init is not None, 'Connection.__init__ missing')
+    bufs = []
+    for n in walk_local(init):
+        if isinstance(n, ast.Assign) and isinstance(n.value, ast.Constant) and isinstance(n.value.value, bytes):
+            for t in n.targets:
+                if isinstance(t, ast.Attribute) and dotted(t.value) == 'self':
+                    bufs.append(t.attr)
+    getters = {}
+    for m in conn.body:
+        if isinstance(m, ast.FunctionDef):
+            for r2 in walk_local(m):
+                if isinstance(r2, ast.Return) and r2.value is not None:
+                    for b in bufs:
+                        if 'self.' + b in src(r2.value):
+                            getters.setdefault(b, set()).add(m.name)
+    called = {c.func.attr for c in calls_in(rm) if isinstance(c.func, ast.Attribute) and dotted(c.func.value) in ('self', 'Connection')}
+    for b in bufs:
+        if 'tx' not in b:
+            continue
+        if getters.get(b, set()) & called:
+            ob.site(SESS, rm, 'connection-level {} must be empty (through {})'.format(b, sorted(getters[b] & called)[0]))
+        else:
+            ob.violate(SESS, fm.qual, 'Connection.{} not part of the idle indication'.format(b), 'the idle indication ignores octets the message layer handed to the connection layer but the socket has not accepted '
+                       'yet: a terminating endpoint closes with them unsent (e.g. the final XFER_ACK, or its own SESS_TERM, truncated)', rm)
 
 
 def c18e(tree, ob):
